@@ -140,6 +140,7 @@ def build(run, prop=ID):
     sect(run, build_ready_and_power_cmds, run, prop, E)
     sect(run, build_init, run, prop, E)
     sect(run, build_wiring, run, prop, E)
+    sect(run, build_wiring_unbounded, run, prop, E)
     sect(run, build_trx_list, run, prop, E)
     sect(run, build_pwr_lemma, run, prop)
     note_engine(run, E)
@@ -447,7 +448,83 @@ def build_wiring(run, prop, E):
                           parent.attrs["child_trx_list"].attrs["trx_list"] == [new] and "clck_if" not in new.attrs)
                 run.add(Obligation(prop, qualname(fc), "wired_into_lists_with_shared_clock_for_parents_only", p.pc, z3.BoolVal(bool(ok)), kind="post", case=cs, where=where(fc), tag=tag,
                                    bounded=K))
-    run.bounded_notes.append("Application.append_trx/append_child_trx: existing transceiver lists of length 0..%d enumerated (bounded stand-in, not counted as proved)" % K)
+    run.bounded_notes.append("Application.append_trx/append_child_trx additionally run on concrete transceiver lists of length 0..%d (labelled bounded; the unbounded law is build_wiring_unbounded over TRXList's contracts)" % K)
+
+
+def build_wiring_unbounded(run, prop, E):
+    """Application.append_trx / append_child_trx against TRXList's contracts (find_trx / add_trx, proved for lists of any length in
+    build_trx_list): any number of existing transceivers, parent found or not, duplicate or not."""
+    ft = toolkit("fake_trx")
+    tl = toolkit("trx_list")
+    cg = toolkit("clck_gen")
+    fc = raw(ft.Application, "append_child_trx")
+    port = z3.Int("base_port")
+
+    def find_summary(E, func, args, kwargs):
+        lst = args[0]
+        E.ghost.setdefault("finds", []).append((lst, tuple(args[1:]), dict(kwargs)))
+        if E.branch(z3.Bool("parent_found")):
+            return E.ghost["parent"]
+        return None
+
+    def add_summary(E, func, args, kwargs):
+        lst, trx = args
+        if E.branch(z3.Bool(E.fresh("duplicate"))):
+            E.raise_(IndexError, "duplicate")
+        E.ghost.setdefault("adds", []).append((lst, trx))
+        return None
+    E.summaries = {"trx_list.TRXList.find_trx": find_summary, "trx_list.TRXList.add_trx": add_summary, "transceiver.Transceiver.__str__": str_summary}
+    for mode in ("parent", "child"):
+        cs = "any number of existing transceivers,%s" % mode
+
+        def setup(E):
+            gen = SObj(cg.CLCKGen, {"clck_links": []})
+            app_list = SObj(tl.TRXList, {}, label="app.trx_list")
+            parent_children = SObj(tl.TRXList, {}, label="parent.child_trx_list")
+            parent = SObj(ft.FakeTRX, {"child_trx_list": parent_children, "name": "P"}, label="parent")
+            app = SObj(ft.Application, {"argv": SObj(SockFactory, {"trx_bind_addr": "0.0.0.0"}), "clck_gen": gen, "fake_pm": SObj(toolkit("fake_pm").FakePM, {}),
+                                        "trx_list": app_list})
+            E.assume(z3.And(port >= 0, port <= 65535 - 200))
+            E.ghost.update({"parent": parent, "adds": [], "finds": []})
+            return {"app": app, "gen": gen, "parent": parent}
+
+        def inv(E, ctx, mode=mode):
+            return E.call(fc, [ctx["app"], "127.0.0.1", SInt(port)], {"name": "N", "child_idx": 0 if mode == "parent" else 1})
+        for p, ctx, out in run_paths(E, setup, inv):
+            tag = {"what": "wiring.unbounded", "mode": mode}
+            adds, finds = p.ghost.get("adds", []), p.ghost.get("finds", [])
+            app = ctx["app"]
+
+            def ob(clause, goal):
+                run.add(Obligation(prop, qualname(fc), clause, p.pc, goal, kind="post", case=cs, where=where(fc), tag=tag))
+            if out[0] == "raise":
+                ok_cls = issubclass(out[1].cls, IndexError)
+                if mode == "child" and finds and not adds:
+                    # either the parent is missing, or the child duplicates an existing transceiver: nothing was wired
+                    ob("IndexError_only_when_parent_missing_or_duplicate", z3.BoolVal(ok_cls))
+                else:
+                    ob("IndexError_only_when_parent_missing_or_duplicate", z3.BoolVal(ok_cls and len(adds) <= 1))
+                if mode == "child" and len(adds) == 1:
+                    ob("half_wired_child_only_on_duplicate_in_parent_list", z3.BoolVal(adds[0][0] is app.attrs["trx_list"]))
+                continue
+            if mode == "parent":
+                ok = len(adds) == 1 and adds[0][0] is app.attrs["trx_list"] and not finds
+                new = adds[0][1] if ok else None
+                ok = ok and isinstance(new, SObj) and new.attrs.get("clck_gen") is ctx["gen"] and new.attrs.get("child_idx") == 0 \
+                    and new.attrs.get("pwr_meas") is app.attrs["fake_pm"]
+                ob("parent_added_once_with_the_shared_clock_and_power_meter", z3.BoolVal(bool(ok)))
+            else:
+                ok = len(finds) == 1 and finds[0][0] is app.attrs["trx_list"] and len(adds) == 2 and adds[0][0] is app.attrs["trx_list"] \
+                    and adds[1][0] is ctx["parent"].attrs["child_trx_list"] and adds[0][1] is adds[1][1]
+                new = adds[0][1] if ok else None
+                ok = ok and isinstance(new, SObj) and new.attrs.get("clck_gen") is None and new.attrs.get("child_idx") == 1 and "clck_if" not in new.attrs \
+                    and new.attrs.get("pwr_meas") is app.attrs["fake_pm"]
+                ob("child_added_to_the_application_and_to_its_parent_without_a_clock", z3.BoolVal(bool(ok)))
+                if ok:
+                    fargs = finds[0][1]
+                    ob("parent_looked_up_by_the_childs_address_and_port", z3.BoolVal(fargs[0] == "127.0.0.1") if len(fargs) >= 2 else z3.BoolVal(False))
+                ob("wired_only_when_the_parent_exists", z3.Bool("parent_found"))
+    E.summaries = {}
 
 
 # ------------------------------------------------------------------ PWR lemma
